@@ -64,15 +64,20 @@ def check_core_family(prop, tier):
         out2 = os.path.join(verif.WORK, "minted_%s_%s.json" % (prop, tier))
         verif.run_pv(["minted-checks", "--prop", prop, "--tier", tier, "--seed", str(verif.seed()), "--out", out2])
         s2 = _summary(out2)
-        extra_viol = s2["violations"]
-        extra_cov = {"minted_token_checks": s2["evaluations"], "minted_rule": s2["rule"]}
+        extra_viol = extra_viol + s2["violations"]
+        extra_cov.update({"minted_token_checks": s2["evaluations"], "minted_rule": s2["rule"]})
+    if prop in ("C01", "C02", "C05", "C06"):
+        # one core builder object Paseto<V,P> used for several tokens (spec/CoreObj.tla)
+        co = coreobj_pipeline(prop, tier, purpose={"C01": "local", "C02": "public"}.get(prop))
+        extra_viol = extra_viol + co["violations"]
+        extra_cov.update({"core_object_histories": co["n"], "core_object_mints_read_back": co["nmint"], "core_object_model_states": co["states"]})
     if prop in ("C01", "C02"):
         # "the same holds end to end through the generic and batteries-included builders and parsers"
         conf = dict(fam="c13", rnd=(600, 6000), nonce=(0, 0), whys=(prop,), maxops=(4, 5), deep=False, allprotos=True)
         r = builder_pipeline(prop, tier, conf, purpose="local" if prop == "C01" else "public")
-        extra_viol = r["violations"]
-        extra_cov = {"builder_histories_executed": r["n"], "builder_builds_read_back": r["nbuilds"],
-                     "builder_model_states": r["states"]}
+        extra_viol = extra_viol + r["violations"]
+        extra_cov.update({"builder_histories_executed": r["n"], "builder_builds_read_back": r["nbuilds"],
+                          "builder_model_states": r["states"]})
     if prop == "C04":
         # one parser object, the same token presented again under another key (call histories)
         r = parser_pipeline(prop, tier, "c15", ("C04",))
@@ -143,6 +148,37 @@ BUILDER_FAMILY = {
     "C14": dict(fam="c14", rnd=(3000, 60000), nonce=(0, 0), whys=("C14",)),
     "C10": dict(fam="c10", rnd=(1000, 10000), nonce=(4096, 100000), whys=("C10",)),
 }
+
+
+def coreobj_pipeline(prop, tier, purpose=None):
+    """MC_CoreObj (every call history of one Paseto<V,P> builder object) -> executed on the real object,
+    every minted token read back under a matrix of presentations -> CoreObjTrace validation."""
+    res = verif.run_tlc("MC_CoreObj.tla", "MC_CoreObj.cfg", workers=8, timeout=1800)
+    verif.require_model_ok(res, "MC_CoreObj")
+    behs = verif.printed_records(res["out"], "BEH")
+    if not behs:
+        raise ToolError("MC_CoreObj printed no behaviours")
+    bp = os.path.join(verif.WORK, "cobeh_%s_%s.ndjson" % (prop, tier))
+    verif.write_ndjson(bp, behs)
+    trace = os.path.join(verif.WORK, "cotrace_%s_%s.ndjson" % (prop, tier))
+    verif.run_pv(["run-coreobj", "--behaviours", bp, "--tier", tier, "--seed", str(verif.seed()), "--out", trace], timeout=7200)
+    n, bad, tres = validate_trace("CoreObjTrace.tla", "CoreObjTrace.cfg", trace, timeout=7000)
+    violations = []
+    nmint = 0
+    with open(trace) as f:
+        lines = f.read().splitlines()
+    for l in lines:
+        nmint += l.count('"op":"mint"')
+    for b in bad:
+        rec = json.loads(lines[b["line"] - 1])
+        if prop not in b["why"]:
+            continue
+        if purpose and not rec["pr"].endswith(purpose):
+            continue
+        violations.append({"props": [prop], "what": "%s (core builder object %s, call %d)" % (b["why"], b["id"], b["step"]),
+                           "replay": {"kind": "coreobj-trace", "id": b["id"], "pr": rec["pr"], "failing_call": b["step"], "why": b["why"],
+                                      "behaviour": rec, "reproduce": "pv run-coreobj --behaviours %s --tier %s --seed %d ; validate with spec/trace/CoreObjTrace.tla" % (bp, tier, verif.seed())}})
+    return dict(n=n, nmint=nmint, states=res["distinct"], violations=violations, bad=bad)
 
 
 def builder_pipeline(prop, tier, conf, purpose=None):
